@@ -108,9 +108,16 @@ pub(crate) fn generate_code(params: CliCodegenParams) -> CliResult<()> {
                 Error::message("Failed to find a file name in the provided query path.".to_owned())
             })?;
 
+    // `<stem>.rs`. (`with_extension` would turn a name like `..graphql` into `..`, a directory.)
+    let mut dest_file_name: OsString = std::path::Path::new(&query_file_name)
+        .file_stem()
+        .unwrap_or(&query_file_name)
+        .to_owned();
+    dest_file_name.push(".rs");
+
     let dest_file_path: PathBuf = output_directory
-        .map(|output_dir| output_dir.join(query_file_name).with_extension("rs"))
-        .unwrap_or_else(move || query_path.with_extension("rs"));
+        .map(|output_dir| output_dir.join(&dest_file_name))
+        .unwrap_or_else(move || query_path.with_file_name(&dest_file_name));
 
     log::info!("Writing generated query to {:?}", dest_file_path);
 
